@@ -333,4 +333,146 @@ theorem C18_cache_roundtrip (w : World V) (s1 s2 : XSpec) (p : Nat) (args args2 
     simp only [reused, hn1, decide_true, Bool.true_and] at hr
     cases hnc : s1.nonCache n <;> cases hsu : w.inst.dag.isSetup n <;> simp [hnc, hsu] at hr ⊢
 
+/-! ### executor objects kept across other operations
+
+    An executor object may be built at one moment and called at a later one, after any number of calls,
+    `setup()` invocations and runs of other executors on the same instance.  `wStep` is the world-level
+    step; `flatten` is the plain operation history the world history amounts to: a run of a kept, unused,
+    cache-less executor is the operation `call sel args` AT THE MOMENT OF THE RUN (it starts from the
+    instance's results as they are then — never from what they were when the object was built), a run of
+    a used object is nothing at all.  Every history theorem (C11, C15) therefore holds with kept executors. -/
+
+def XSpec.plain (s : XSpec) : Prop := s.cacheIn = none ∧ s.fromCache = none
+
+inductive WOp (V : Type) where
+  | op (o : Op V)                      -- a DAG call, an immediate executor run, a setup()
+  | mk (s : XSpec)                     -- an executor object is built and kept
+  | run (k : Nat) (args : List V)      -- the k-th kept executor object is called
+
+structure WState (V : Type) where
+  w  : World V
+  xs : List XObj
+
+def wStep (st : WState V) : WOp V → WState V
+  | .op o => { st with w := { st.w with inst := applyOp st.w.inst o } }
+  | .mk s => { st with xs := st.xs ++ [XObj.fresh s] }
+  | .run k args =>
+    match st.xs[k]? with
+    | none => st
+    | some o => let r := xRun st.w o args; { w := r.1, xs := st.xs.set k r.2.1 }
+
+def wRun (st : WState V) : List (WOp V) → WState V
+  | [] => st
+  | o :: rest => wRun (wStep st o) rest
+
+/-- the plain operations a world history amounts to -/
+def flatten (st : WState V) : List (WOp V) → List (Op V)
+  | [] => []
+  | .op o :: rest => o :: flatten (wStep st (.op o)) rest
+  | .mk s :: rest => flatten (wStep st (.mk s)) rest
+  | .run k args :: rest =>
+    match st.xs[k]? with
+    | none => flatten (wStep st (.run k args)) rest
+    | some o => if o.used then flatten (wStep st (.run k args)) rest
+                else .call o.spec.sel args :: flatten (wStep st (.run k args)) rest
+
+def AllPlain (xs : List XObj) : Prop := ∀ o ∈ xs, o.spec.plain
+def WOp.plainMk : WOp V → Prop | .mk s => s.plain | _ => True
+
+/-- the run of an unused cache-less executor object is the operation `call sel args` on the instance as it is
+    at that moment; no file is touched -/
+theorem xRun_plain (w : World V) (o : XObj) (args : List V) (hp : o.spec.plain) (hu : o.used = false) :
+    (xRun w o args).1 = { inst := applyOp w.inst (.call o.spec.sel args), files := w.files } := by
+  unfold xRun
+  simp only [hu, Bool.false_eq_true, if_false, xStart, hp.2]
+  unfold applyOp
+  by_cases h : succeeded (xCfgOf w.inst o.spec w.inst.res args) = true
+  · have h' : succeeded (opCfg w.inst (.call o.spec.sel args)) = true := h
+    simp only [h, h', if_true, hp.1, putFile]; rfl
+  · have h' : ¬ succeeded (opCfg w.inst (.call o.spec.sel args)) = true := h
+    simp only [h, h', if_false, Bool.false_eq_true]
+
+theorem wStep_allPlain (st : WState V) (o : WOp V) (h : AllPlain st.xs) (ho : o.plainMk) : AllPlain (wStep st o).xs := by
+  cases o with
+  | op o => exact h
+  | mk s =>
+    intro x hx
+    simp only [wStep, List.mem_append, List.mem_singleton] at hx
+    rcases hx with hx | hx
+    · exact h x hx
+    · subst hx; exact ho
+  | run k args =>
+    simp only [wStep]
+    cases hk : st.xs[k]? with
+    | none => exact h
+    | some o =>
+      intro x hx
+      simp only [] at hx
+      rcases List.mem_or_eq_of_mem_set hx with hx | hx
+      · exact h x hx
+      · subst hx
+        have hmem : o ∈ st.xs := List.mem_of_getElem? hk
+        have : (xRun st.w o args).2.1.spec = o.spec := by
+          unfold xRun
+          by_cases hu : o.used = true
+          · simp [hu]
+          · simp only [hu, if_false, Bool.false_eq_true]
+            cases xStart st.w o.spec with
+            | none => rfl
+            | some start => simp only []; split <;> rfl
+        show (xRun st.w o args).2.1.spec.plain
+        rw [this]; exact h o hmem
+
+/-- **kept executors reduce to plain histories**: whatever is interleaved between the construction of
+    executor objects and their calls, the instance ends up exactly as after the flattened history. -/
+theorem wRun_inst (ops : List (WOp V)) : ∀ (st : WState V), AllPlain st.xs → (∀ o ∈ ops, o.plainMk) →
+    (wRun st ops).w.inst = runHistory st.w.inst (flatten st ops) := by
+  induction ops with
+  | nil => intro st _ _; rfl
+  | cons o rest ih =>
+    intro st hp hops
+    have hp' := wStep_allPlain st o hp (hops o (by simp))
+    have hrest : ∀ o ∈ rest, o.plainMk := fun x hx => hops x (by simp [hx])
+    cases o with
+    | op o => simp only [wRun, flatten, runHistory]; exact ih _ hp' hrest
+    | mk s =>
+      simp only [wRun, flatten]
+      rw [ih _ hp' hrest]; rfl
+    | run k args =>
+      simp only [wRun, flatten]
+      rw [ih _ hp' hrest]
+      cases hk : st.xs[k]? with
+      | none => simp only [wStep, hk]
+      | some o =>
+        have hmem : o ∈ st.xs := List.mem_of_getElem? hk
+        by_cases hu : o.used = true
+        · simp only [hu, if_true]
+          simp only [wStep, hk, xRun_of_used st.w o args hu]
+        · have hu' : o.used = false := by simpa using hu
+          simp only [hu', Bool.false_eq_true, if_false, runHistory]
+          simp only [wStep, hk, xRun_plain st.w o args (hp o hmem) hu']
+
+/-- **C11 with kept executor objects**: over any world history — calls, `setup()`, executors built at any
+    moment and called at any later one (or several times) — in which every operation that runs succeeds,
+    no setup node is entered twice. -/
+theorem C11_kept_executors (ops : List (WOp V)) (st : WState V) (hp : AllPlain st.xs) (hops : ∀ o ∈ ops, o.plainMk)
+    (hok : InstOK st.w.inst) (hwf : ∀ (j : Inst V) (op : Op V), WF (opCfg j op))
+    (hall : AllSucceed st.w.inst (flatten st ops)) :
+    (setupEntries st.w.inst (flatten st ops)).Nodup ∧
+      (wRun st ops).w.inst = runHistory st.w.inst (flatten st ops) :=
+  ⟨C11_setup_at_most_once (flatten st ops) st.w.inst hok hwf hall, wRun_inst ops st hp hops⟩
+
+/-- a kept executor sees the setup values the instance holds WHEN IT RUNS: a value recorded by any operation
+    between its construction and its call is in its start results and is never recomputed -/
+theorem kept_executor_sees_current_setup (w : World V) (o : XObj) (args : List V) (hp : o.spec.plain)
+    (hu : o.used = false) (hok : InstOK w.inst) (n : Node) (hs : w.inst.dag.isSetup n = true) (v : V)
+    (hv : w.inst.res n = some v) :
+    n ∉ entered (opCfg w.inst (.call o.spec.sel args)) ∧ (xRun w o args).1.inst.res n = some v := by
+  constructor
+  · intro hn
+    have := entered_not_precomputed w.inst (.call o.spec.sel args) n hn
+    rw [opCfg_init_setup w.inst hok _ n hs, hv] at this; cases this
+  · rw [xRun_plain w o args hp hu]
+    exact applyOp_res_keep w.inst _ n v hv
+
 end VM
